@@ -74,6 +74,14 @@ def base_cases():
         dict(name="big-file", expr=".key0007 = 1", content=big, mode=0o444),
         dict(name="mode-755", expr="del(.b)", content=b"#!x\na: 1\nb: 2\n", mode=0o755),
         dict(name="empty-file", expr=".a = 1", content=b"", mode=0o644),
+        # the same protocol through the other command (eval-all has its own copy of the deferred finisher)
+        dict(name="ea-set-scalar", cmd="ea", expr=".a = 5", content=b"a: 1\nb: 2\n", mode=0o640),
+        dict(name="ea-multi-doc", cmd="ea", expr='.x = "y"', content=b"a: 1\n---\nb: 2\n---\nc: 3\n", mode=0o600),
+        dict(name="ea-eval-error", cmd="ea", expr='.a = error("boom")', content=b"a: 1\n", mode=0o644),
+        dict(name="ea-e-no-match", cmd="ea", expr=".zz", flags=["-e"], content=b"a: 1\n", mode=0o644),
+        dict(name="ea-e-match", cmd="ea", expr=".a", flags=["-e"], content=b"a: 1\n", mode=0o644),
+        dict(name="ea-front-matter", cmd="ea", expr=".a = 5", flags=["--front-matter=process"], fm=2,
+             content=b"---\na: 1\n---\nhello tail\n", mode=0o644, ext=".md"),
         # the path given to -i is a link; unusual permission bits (the mode seen AT THE PATH must survive)
         dict(name="symlink-640", expr=".port = 8080", content=b"user: admin\nport: 1\n", mode=0o640, link="symlink"),
         dict(name="symlink-eval-error", expr='.a = error("x")', content=b"a: 1\n", mode=0o600, link="symlink"),
